@@ -124,6 +124,9 @@ class Traph(object):
                 raise TraphException("File corrupted: `link_store.dat`")
 
         else:
+            # An in-memory index always starts empty: rules must be written
+            create = True
+
             self.lru_trie_storage = MemoryStorage(LRU_TRIE_NODE_BLOCK_SIZE)
             self.links_store_storage = MemoryStorage(LINK_STORE_NODE_BLOCK_SIZE)
 
